@@ -712,7 +712,7 @@ class ProductSpace(LinearSpace):
                                      'product space: remaining indices '
                                      '{}'.format(rest_indcs))
                 if not rest_indcs:
-                    return ProductSpace(*spaces)
+                    return ProductSpace(*spaces, field=self.field)
                 elif all(isinstance(space, ProductSpace) for space in spaces):
                     return ProductSpace(
                         *(space[rest_indcs] for space in spaces),
@@ -908,7 +908,7 @@ class ProductSpaceElement(LinearSpaceElement):
             return self.space[indices].element(out_parts)
         elif isinstance(indices, tuple):
             if len(indices) == 0:
-                return ProductSpace().element()
+                return ProductSpace(field=self.space.field).element()
             elif len(indices) == 1:
                 # Tuple with a single entry - we just unpack and delegate
                 return self[indices[0]]
@@ -945,7 +945,8 @@ class ProductSpaceElement(LinearSpaceElement):
                         indexed = [p[indices[1:]] for p in part]
 
                     # Finally make a wrapping space for the indexed elements
-                    new_space = ProductSpace(*(p.space for p in indexed))
+                    new_space = ProductSpace(*(p.space for p in indexed),
+                                             field=self.space.field)
                     return new_space.element(indexed)
         else:
             raise TypeError('bad index type {}'.format(type(indices)))
